@@ -182,7 +182,8 @@ func updateRegex(filePath string, ruleId string, chainOffset uint8, newRegex str
 
 	lines := bytes.Split(contents, []byte("\n"))
 
-	idRegex := regexp.MustCompile(fmt.Sprintf("id:%s", ruleId))
+	// the id action of the rule itself: not a longer id, not a mention in a comment
+	idRegex := regexp.MustCompile(fmt.Sprintf(`^\s*[^#\s].*\bid:%s\b|^\s*id:%s\b`, ruleId, ruleId))
 	index := 0
 	var line []byte
 	foundRule := false
@@ -203,7 +204,7 @@ func updateRegex(filePath string, ruleId string, chainOffset uint8, newRegex str
 			break
 		}
 	}
-	if !foundRule || chainOffset != chainCount {
+	if !foundRule || chainOffset != chainCount || index < 0 {
 		logger.Fatal().Msgf("Failed to find rule %s, chain offset, %d in %s", ruleId, chainOffset, filePath)
 	}
 
